@@ -23,8 +23,8 @@
 (* only built to QUANTIFY over the inputs of an operation:                 *)
 (*   - width <= 2 bytes: complete enumeration on integers (GammaEnumI),    *)
 (*   - wider: a member sample computed here from the interval (Members):   *)
-(*     the members next to both ends, next to the sign boundary, and       *)
-(*     pseudo random ones - the harness never sends members.               *)
+(*     the two members at each end, the two around the sign boundary and   *)
+(*     six pseudo random ones - the harness never sends members.           *)
 (* 1-byte x 1-byte binary operations are evaluated with the integer        *)
 (* transcription BVInt.tla, everything else with BV.tla (mc/MC_BV proves   *)
 (* them equal on all 1-byte operands; mc/MC_Interval proves the integer    *)
@@ -140,12 +140,12 @@ IvSampleIdx(x, seed) ==
       K(i) == BvFromNat(i, W)
   IN IF BvIsSmall(n) /\ BvToNat(n) <= 40 THEN {K(i) : i \in 0..BvToNat(n)}
      ELSE LET sh == BvLzCountN(n) + 1                         \* r >> sh < 2^(bitlen(n)-1) <= n
-              R == {BvShrN(IvRandBv(seed, i, W), sh) : i \in 1..6}
+              R == {BvShrN(IvRandBv(seed, i, W), sh) : i \in 1..3}
               \* first member >= 0 when the interval straddles the sign boundary: ceil(-s / st)
               k0 == IF BvSign(x.s) = 1 /\ BvSign(x.e) = 0
                     THEN {BvAdd(BvUDivFast(BvSub(BvNeg(BvSExt(x.s, W)), K(1)), BvZExt(x.st, W)), K(1))}
                     ELSE {}
-          IN {K(0), K(1), K(2), BvSub(n, K(2)), BvSub(n, K(1)), n}
+          IN {K(0), K(1), BvSub(n, K(1)), n}
              \cup R \cup {BvSub(n, r) : r \in R}
              \cup k0 \cup {BvSub(k, K(1)) : k \in k0}
 Members(x, seed) == {IvMember(x, k) : k \in IvSampleIdx(x, seed)}
